@@ -104,6 +104,9 @@ def run(ctx):
     _f2.delta_capacity(ctx, 'R12.4')
     r125(ctx)
     ctx.exhaustive = True
+    from . import findings3 as _f3
+    _f3.thrift_reader_forms(ctx, None, 'R12.6')
+
 
 
 def r125(ctx, rule='R12.5'):
